@@ -184,14 +184,17 @@ def sec_combine(rec, patches=None):
 
     def run():
         rot = rotation.SymRotation(q)
+        # the same range on both axes is still the union of a y model and an x model of that range
+        same = (T.dual_axis((ty0, ty1), (ty0, ty1)).create_mask(rot, shape), T.single_axis((ty0, ty1), "x").create_mask(rot, shape),
+                Bs.UnionAxes([T.single_axis((ty0, ty1), "y"), T.single_axis((ty0, ty1), "x"), T.single_axis((ty0, ty1), "y")]).create_mask(rot, shape))
         return (T.no_wedge().create_mask(rot, shape), T.dual_axis((ty0, ty1), (tx0, tx1)).create_mask(rot, shape),
-                T.single_axis((ty0, ty1), "y").create_mask(rot, shape), T.single_axis((tx0, tx1), "x").create_mask(rot, shape), T.single_axis(None))
+                T.single_axis((ty0, ty1), "y").create_mask(rot, shape), T.single_axis((tx0, tx1), "x").create_mask(rot, shape), T.single_axis(None), same)
 
     for pi, p in enumerate(explore(run, assumptions=hyps)):
         if not p.ok:
             rec.fact("combine/runs", False, key="C08/combine/raises", detail={"exc": repr(p.exc)[:200]})
             continue
-        nw, du, my, mx, none_model = p.result
+        nw, du, my, mx, none_model, same = p.result
         h = hyps + [p.condition()]
         ones = nw.shape == shape and all(float(_coerce(v)) == 1.0 for v in _obj(nw).reshape(-1))
         rec.fact("combine/no-wedge-all-ones", bool(ones), key="C08/no-wedge", detail={})
@@ -199,6 +202,13 @@ def sec_combine(rec, patches=None):
         du, my, mx = _obj(du), _obj(my), _obj(mx)
         for idx in np.ndindex(shape):
             rec.query(f"combine/dual-axis=union{idx}", h, zb(du[idx]) == z3.Or(zb(my[idx]), zb(mx[idx])), key="C08/union", twin=False, nonlinear=True)
+        ds, sx, un3 = (_obj(v) for v in same)
+        okshape = ds.shape == tuple(shape) and un3.shape == tuple(shape)
+        rec.fact("combine/same-range/shapes", okshape, key="C08/union", detail={"dual": list(ds.shape), "union": list(un3.shape)}, reproduced=True if okshape else replay_history({})[0])
+        if okshape:
+            for idx in np.ndindex(shape):
+                rec.query(f"combine/dual-axis(r,r)=union-of-y(r)-and-x(r){idx}", h, zb(ds[idx]) == z3.Or(zb(my[idx]), zb(sx[idx])), key="C08/union", twin=False, nonlinear=True, replay=replay_history)
+                rec.query(f"combine/UnionAxes([y,x,y])=union{idx}", h, zb(un3[idx]) == z3.Or(zb(my[idx]), zb(sx[idx])), key="C08/union", twin=False, nonlinear=True, replay=replay_history)
 
 
 def replay_history(cex):
@@ -222,6 +232,8 @@ def replay_history(cex):
             for name, mk in (("y", lambda: single_axis(r, "y")), ("x", lambda: single_axis(r, "x")), ("dual", lambda: dual_axis(r, r))):
                 clear()
                 fresh[name] = np.asarray(mk().create_mask(rot, shape)).copy()
+            if fresh["dual"].shape != fresh["y"].shape or (fresh["dual"] != np.maximum(fresh["y"], fresh["x"])).any():
+                bad.append({"shape": list(shape), "tilt": list(r), "model": "dual_axis(r, r) vs max(single y, single x)", "wrong_bins": int((fresh["dual"] != np.maximum(fresh["y"], fresh["x"])).sum())})
             for order in (("x", "y", "dual", "y"), ("dual", "dual", "y", "x"), ("y", "x", "y", "dual")):
                 clear()
                 for k, name in enumerate(order):
